@@ -81,6 +81,18 @@ def execute(rep, pa, consts, desc, numpy_seed=None, script=None, lenient=False):
         # the magnitude is a public attribute (tests/test_cst.py reassigns it): a tool built at another magnitude and then set to m
         # must behave like a tool built at m - nothing may be frozen at construction time
         cst = CST(desc["constructed_with_magnitude"], ref)
+        if desc.get("used_before"):
+            # ... and USED at that other magnitude first (every perturbation, also category_shuffle with its optional arguments): nothing
+            # computed during that use may survive the reassignment (draws of this first use are not recorded)
+            np.random.seed(int(desc["used_before"]))
+            try:
+                with Draws(lenient=True):
+                    cst.corpus_shuffle(["w", "v"], shift=True, false_pos=True, false_neg=True, split=True, cat_shuffle=True)
+                    c0 = cst.corpus_from_reference(["w"])
+                    cst.category_shuffle(c0, prevalence=True)
+            except Exception:
+                pass
+            rep.count("tool_used_before_magnitude_reassigned")
         cst.magnitude = m
         rep.count("magnitude_reassigned")
     else:
@@ -263,6 +275,12 @@ def run(rep, tier, seed, pa):
         desc = {"units": units, "magnitude": m, "annotators": anns, "flags": flags, "include_ref": include_ref}
         if ri % 3 == 2:
             desc["constructed_with_magnitude"] = rng.choice([x for x in (0.0, 0.5, 1.0) if x != m])
+            if ri % 2 == 0:
+                desc["used_before"] = rng.randrange(1, 2 ** 31)
+                if rng.random() < 0.5:       # the clause that must survive a first use: magnitude 0 copies the reference, whatever flags are on
+                    desc["magnitude"] = m = 0.0
+                    desc["constructed_with_magnitude"] = rng.choice([0.5, 1.0])
+                    desc["flags"] = flags = dict(flags, **{rng.choice(FLAGS): True})
         r = execute(rep, pa, consts, desc, numpy_seed=rng.randrange(2 ** 31))
         if r is not None:
             lines.append(r[0])
@@ -286,6 +304,19 @@ def run(rep, tier, seed, pa):
                          {"overlapping_fun": (lambda a, b: 1.0 if a == b else 0.25), "prevalence": True}, {}])
         desc = {"units": units, "magnitude": m, "call": "category_shuffle(%s)" % ", ".join(sorted(kw))}
         np.random.seed(rng.randrange(2 ** 31))
+        if ci % 2 == 1:
+            # the same tool object was used with the same optional arguments at another magnitude before being set to m
+            m = rng.choice([0.0, 0.0, 0.3, 1.0])
+            desc["magnitude"] = m
+            m0 = rng.choice([x for x in (0.0, 0.5, 1.0) if x != m])
+            tool = CST(m0, ref)
+            try:
+                tool.category_shuffle(tool.corpus_from_reference(["w"]), **kw)
+            except Exception:
+                pass
+            tool.magnitude = m
+            desc["call"] += " on a tool used at magnitude %g before" % m0
+            rep.count("direct_category_shuffle_after_use_at_other_magnitude")
         rep.count("direct_category_shuffle")
         rep.case(sample=desc)
         try:
@@ -337,7 +368,7 @@ def replay(rep, data, pa):
         return False
     CST = pa.CorpusShufflingTool
     consts = {"SHIFT_FACTOR": CST.SHIFT_FACTOR, "SPLIT_FACTOR": CST.SPLIT_FACTOR, "FALSE_POS_FACTOR": CST.FALSE_POS_FACTOR}
-    desc = {k: data[k] for k in ("units", "magnitude", "annotators", "flags", "include_ref", "constructed_with_magnitude") if k in data}
+    desc = {k: data[k] for k in ("units", "magnitude", "annotators", "flags", "include_ref", "constructed_with_magnitude", "used_before") if k in data}
     desc["units"] = [[tuple(u) for u in us] for us in desc["units"]]
     script = [(n, i if n == "choice" else (int(v) if n == "randint" else v)) for n, i, v in data["draws"]]
     try:
